@@ -18,14 +18,14 @@ class PDAObjectCreator:
         self._variable_values = {str(variable.value)
                                  for variable in variables}
         self._used_variable_values = set()
+        self._used_terminal_values = set()
 
     def get_symbol_from(self, symbol):
         """Get a symbol"""
         if isinstance(symbol, cfg.Epsilon):
             return pda.Epsilon()
         if self._inverse_symbol[symbol] is None:
-            value = str(symbol.value)
-            temp = pda.Symbol(value)
+            temp = pda.Symbol(symbol.value)
             self._inverse_symbol[symbol] = temp
             return temp
         return self._inverse_symbol[symbol]
@@ -40,8 +40,10 @@ class PDAObjectCreator:
                 value = "#TERM#" + value
                 # The stack symbol of a terminal must differ from the
                 # stack symbols of the variables
-                while value in self._variable_values:
+                while value in self._variable_values or \
+                        value in self._used_terminal_values:
                     value = "#" + value
+                self._used_terminal_values.add(value)
             else:
                 # Two different variables can have the same text
                 if value in self._used_variable_values:
